@@ -334,6 +334,16 @@ class ConditionLike:
         }
         ALL_PRE_PROCS = list(PRE_PROC_LOOKUP.keys())
 
+        def to_dtype(i):
+            if isinstance(i, dict):
+                # only as a data-path spec (resolved to a type when the condition is tested)
+                if isinstance(
+                    valida.datapath.DataPath.from_spec(i), valida.datapath.DataPath
+                ):
+                    return i
+                raise KeyError(i)
+            return DTYPE_LOOKUP[i.lower() if isinstance(i, str) else i]
+
         if len(spec) > 1:
             raise MalformedConditionLikeSpec(
                 f"A condition-like should be specified with exactly one "
@@ -396,16 +406,9 @@ class ConditionLike:
                         try:
                             # convert strings to types
                             if isinstance(spec_val, list):
-                                spec_val = [
-                                    DTYPE_LOOKUP[i.lower() if isinstance(i, str) else i]
-                                    for i in spec_val
-                                ]
+                                spec_val = [to_dtype(i) for i in spec_val]
                             else:
-                                spec_val = DTYPE_LOOKUP[
-                                    spec_val.lower()
-                                    if isinstance(spec_val, str)
-                                    else spec_val
-                                ]
+                                spec_val = to_dtype(spec_val)
                         except KeyError:
                             raise MalformedConditionLikeSpec(
                                 f"Data type {spec_val!r} is not understood. Available data "
@@ -440,14 +443,9 @@ class ConditionLike:
                 try:
                     # convert strings to types
                     if isinstance(spec_val, list):
-                        spec_val = [
-                            DTYPE_LOOKUP[i.lower() if isinstance(i, str) else i]
-                            for i in spec_val
-                        ]
+                        spec_val = [to_dtype(i) for i in spec_val]
                     else:
-                        spec_val = DTYPE_LOOKUP[
-                            spec_val.lower() if isinstance(spec_val, str) else spec_val
-                        ]
+                        spec_val = to_dtype(spec_val)
                 except KeyError:
                     raise MalformedConditionLikeSpec(
                         f"Data type {spec_val!r} is not understood. Available data "
@@ -720,9 +718,10 @@ class Condition(ConditionLike):
             # single pos-or-kw and nothing else, spec val is just that single value:
             spec_val = copy.deepcopy(next(iter(self.callable.kwargs.values())))
             if cast_types:
+                is_path = lambda i: isinstance(i, valida.datapath.DataPath)
                 if isinstance(spec_val, list):
-                    spec_val = [INV_DTYPE_LOOKUP[i] for i in spec_val]
-                else:
+                    spec_val = [i if is_path(i) else INV_DTYPE_LOOKUP[i] for i in spec_val]
+                elif not is_path(spec_val):
                     spec_val = INV_DTYPE_LOOKUP[spec_val]
 
         elif len(func_args["POSITIONAL_OR_KEYWORD"]) > 1 and not any(
@@ -734,7 +733,7 @@ class Condition(ConditionLike):
                 for k, v in spec_val.items():
                     try:
                         spec_val[k] = INV_DTYPE_LOOKUP[v]
-                    except KeyError:
+                    except (KeyError, TypeError):  # not a type (e.g. a data path)
                         continue
 
         elif len(func_args["VAR_POSITIONAL"]) == 1 and not any(
@@ -746,7 +745,7 @@ class Condition(ConditionLike):
                 for idx, val in enumerate(spec_val):
                     try:
                         spec_val[idx] = INV_DTYPE_LOOKUP[val]
-                    except KeyError:
+                    except (KeyError, TypeError):  # not a type (e.g. a data path)
                         continue
 
         elif len(func_args["VAR_KEYWORD"]) == 1 and not func_args["VAR_POSITIONAL"]:
@@ -756,7 +755,7 @@ class Condition(ConditionLike):
                 for k, v in spec_val.items():
                     try:
                         spec_val[k] = INV_DTYPE_LOOKUP[v]
-                    except KeyError:
+                    except (KeyError, TypeError):  # not a type (e.g. a data path)
                         continue
 
         else:
